@@ -77,7 +77,7 @@ def main():
                        'allocation fails only by raising the std exception (vec model: any request above a symbolic cap may fail)',
                        'real threads are not modelled: containment and progress are proved per worker function (sequential)',
                        'the sanitizer outcomes the property names as observation points are not run by this check (native replay only)']
-    results = core.run_jobs(jobs)
+    results = core.keep_property(core.run_jobs(jobs), 'C10')
     rep.add_results(results)
     core.triage(rep, results, info)
     return rep.finish('proof', 'goto-cc | goto-instrument --dfcc harness --enforce-contract <T>_read --replace-call-with-contract AbstractFile_v_read ... | cbmc ' + ' '.join(core.CBMC_FLAGS),
